@@ -17,8 +17,11 @@ pub open spec fn conv_tokens(c: NumericConversion, t: TokenStream, out: TokenStr
         NumericConversion::ToFloat => ts_subs(out) =~= seq![sub(t)] && ts_lits(out).len() > 0 && lits_all(out, |x: Seq<char>| float_conv_tok(x)),
     }
 }
+/// the spliced operand is the (possibly converted) operand tokens, or those once more inside plain parentheses
+/// (`( (x) as f64 ) < y`: a cast followed by `<` does not parse in Rust)
 pub open spec fn is_sub_conv(p: QPart, c: NumericConversion, t: TokenStream) -> bool {
-    p matches QPart::Sub(x) && conv_tokens(c, t, x)
+    p matches QPart::Sub(x) && (conv_tokens(c, t, x)
+        || (ts_subs(x).len() == 1 && (ts_subs(x)[0] matches QPart::Sub(y) && conv_tokens(c, t, y)) && lits_all(x, |z: Seq<char>| paren_tok(z))))
 }
 pub open spec fn call_tok(t: Seq<char>) -> bool { t == "("@ || t == ")"@ || t == ","@ }
 // (`pow` is the integer power and `powf` the float power: each whitelist admits only its own)
